@@ -1,0 +1,31 @@
+//go:build verif
+
+// Verification hooks for the OAuth PKCE browser-login helpers (property C27).
+// Thin read-only wrappers around unexported functions; nothing here changes
+// behaviour, and the file is compiled only with -tags verif.
+
+package vgirpc
+
+// VerifPackOAuthCookie exposes packOAuthCookie.
+func VerifPackOAuthCookie(verifier, state, originalURL, returnTo string, sessionKey []byte, createdAt int64) string {
+	return packOAuthCookie(verifier, state, originalURL, returnTo, sessionKey, createdAt)
+}
+
+// VerifUnpackOAuthCookie exposes unpackOAuthCookie.
+func VerifUnpackOAuthCookie(cookieValue string, sessionKey []byte, maxAge int) (verifier, state, originalURL, returnTo string, err error) {
+	return unpackOAuthCookie(cookieValue, sessionKey, maxAge)
+}
+
+// VerifValidateOriginalURL exposes validateOriginalURL.
+func VerifValidateOriginalURL(u, prefix string) string { return validateOriginalURL(u, prefix) }
+
+// VerifValidateReturnTo exposes validateReturnTo.
+func VerifValidateReturnTo(u string, allowedOrigins map[string]bool) string {
+	return validateReturnTo(u, allowedOrigins)
+}
+
+// VerifDeriveSessionKey exposes deriveSessionKey.
+func VerifDeriveSessionKey(signingKey []byte) []byte { return deriveSessionKey(signingKey) }
+
+// VerifOAuthSessionMaxAge is the session-cookie max age the callback enforces.
+const VerifOAuthSessionMaxAge = sessionMaxAge
